@@ -51,6 +51,8 @@ var commands = map[string]command{
 	"parser-replay":       parserReplay,
 	"parser-trace":        parserTrace,
 	"selfcert-replay":     selfcertReplay,
+	"hash-replay":         hashReplay,
+	"chain-replay":        chainReplay,
 }
 
 func main() {
